@@ -72,6 +72,28 @@ fn check(spec: u8, kind: usize, buf: &[u8], off: usize, obs: &mut Obs) -> Result
         (Ok(g), None) => return Err(format!("{}: returned Ok({:#x}) although fewer than {} bytes remain", ctx(), g, w)),
         (Err(e), Some(wv)) => return Err(format!("{}: returned Err({}) although the value {:#x} is readable", ctx(), err_name(e), wv)),
     }
+    // "the run-time specification behaves identically to the matching compile-time one" (and the native one to the
+    // build target's): the complete result, error variant and payload included, and the cursor
+    let twin: Option<u8> = match spec {
+        2 => Some(0),
+        3 => Some(1),
+        4 => Some(if cfg!(target_endian = "little") { 0 } else { 1 }),
+        _ => None,
+    };
+    if let Some(tw) = twin {
+        let mut o2 = off;
+        let got2: Result<u64, ParseError> = with_endian!(tw, |e| Ok::<_, String>(match kind {
+            0 => e.parse_u8_at(&mut o2, buf).map(|v| v as u64),
+            1 => e.parse_u16_at(&mut o2, buf).map(|v| v as u64),
+            2 => e.parse_u32_at(&mut o2, buf).map(|v| v as u64),
+            3 => e.parse_u64_at(&mut o2, buf),
+            4 => e.parse_i32_at(&mut o2, buf).map(|v| v as i64 as u64),
+            _ => e.parse_i64_at(&mut o2, buf).map(|v| v as u64),
+        }))?;
+        if format!("{:?}", got) != format!("{:?}", got2) || o != o2 {
+            return Err(format!("{}: returned {:?} (cursor {}), the {} specification returns {:?} (cursor {})", ctx(), got, o, SPEC_NAMES[tw as usize], got2, o2));
+        }
+    }
     obs.describe(|| json!({"spec": SPEC_NAMES[spec as usize], "kind": kname, "offset": off, "buf_hex": hex(&buf[..buf.len().min(48)]), "buf_len": buf.len(), "result": match want { Some(v) => format!("{:#x}", v), None => "Err".into() }}));
     Ok(())
 }
@@ -231,7 +253,7 @@ pub fn property() -> Property {
     Property {
         id: "C04",
         level: "exploration",
-        rule: "cases are (byte-order spec in {LE,BE,Any::Little,Any::Big,Native}, width in {u8,u16,u32,u64,i32,i64}, buffer, offset); oracle = shift-and-add reference, offset'=offset+w on success, Err and offset untouched on failure. small: exhaustive enumeration for u8/u16 (every byte value / byte pair at every position and every failing offset of buffers of length 0..4). random: proptest choice sequences for all widths with boundary/sign patterns and offsets incl. usize::MAX-16..=usize::MAX. beyond_4gib: reads at offsets 2^32-16 .. 2^32+73 of a 2^32+64 byte buffer (lazily mapped zero pages), all specs and widths. Non-trivial: a successful read at a non-zero offset of a value with pairwise distinct bytes, or a failing read at a non-zero offset; distinct by case hash.",
+        rule: "cases are (byte-order spec in {LE,BE,Any::Little,Any::Big,Native}, width in {u8,u16,u32,u64,i32,i64}, buffer, offset); oracle = shift-and-add reference, offset'=offset+w on success, Err and offset untouched on failure; the run-time and native specifications return exactly what the matching fixed specification returns (value or error variant with its payload, and cursor). small: exhaustive enumeration for u8/u16 (every byte value / byte pair at every position and every failing offset of buffers of length 0..4). random: proptest choice sequences for all widths with boundary/sign patterns and offsets incl. usize::MAX-16..=usize::MAX. beyond_4gib: reads at offsets 2^32-16 .. 2^32+73 of a 2^32+64 byte buffer (lazily mapped zero pages), all specs and widths. Non-trivial: a successful read at a non-zero offset of a value with pairwise distinct bytes, or a failing read at a non-zero offset; distinct by case hash.",
         assumptions: &["64-bit little-endian host: NativeEndian is compared with cfg!(target_endian) of this build only"],
         subs: vec![Sub::enumerated("small", oracle_small, enum_small, true), Sub::new("random", oracle_random, 96, 3_000_000, 40_000_000), Sub::enumerated("beyond_4gib", oracle_big, enum_big, false)],
         extras: vec![crate::fuzz::c04_choice],
